@@ -664,5 +664,7 @@ func main() {
 		decodePart(w, r)
 	case "rt":
 		rtPart(w, r)
+	case "wkt":
+		wktPart(w, r)
 	}
 }
